@@ -170,3 +170,50 @@ Theorem C03_fk_names_refuted :
     [mkPfk (B "0") [B "pid"] (B "p") [B "id"]; mkPfk (B "1") [B "pid"] (B "p") [B "id"]]) = [B "myfk"; B "1"].
 Proof. exact w_fk_same_shape. Qed.
 Print Assumptions C03_fk_names_refuted.
+
+(** 4. C03_hcl.  [hcl_roundtrip] is sqlite.EvalHCLBytes after sqlite.MarshalHCL on the spec tree
+    (Hcl/SpecModel.v: sqlspec.go + specutil/convert.go for SQLite, tied to the real functions on
+    every run, stage "spec"); premise made visible: the HCL text layer (hashicorp/hcl printing the
+    tree and parsing it back, evaluating references) is NOT in the model -- a reference is the name it
+    resolves to, a string is its bytes.  Full statement:
+        forall well-formed s in the image of inspect,
+          diff (from_spec (to_spec s)) s = [] and diff s (from_spec (to_spec s)) = [].
+    4a. the structural half, at full strength: for every well-formed schema the round trip succeeds
+        and returns the explicit normal form [norm_x] (defaults re-read, parts renumbered from 0,
+        index origin dropped, primary key unnamed). *)
+From Atlas Require Import Diff.DiffModel Diff.DiffSqlite Hcl.SpecModel Hcl.SpecProofs Hcl.SpecDiffProofs.
+Theorem C03_hcl_normal_form :
+  forall xs, schema_wf xs -> hcl_roundtrip xs = ROk (map norm_x xs).
+Proof. exact hcl_roundtrip_norm. Qed.
+Print Assumptions C03_hcl_normal_form.
+
+(** 4b. the differ half: for every well-formed schema whose tables are [diffable] the SQLite differ
+    (Diff/DiffSqlite.v, C02's model of sqlx.Diff + sqlite/diff.go) finds no change between the round
+    trip and the original, in both directions.  [diffable]: unique column / index / fk names, typed
+    columns, defaults in [default_ok] (4c shows each excluded form is a genuine change), index parts
+    numbered increasingly, primary key on plain ascending columns, referential actions without '_',
+    and NO index with a generated name (sqlite_autoindex_ prefix).
+    Partial because of that last clause: a table with a UNIQUE constraint is inspected with such an
+    index and the differ then goes through Normalize / FindGeneratedIndex (C02_sqlite_copy_empty proves
+    that path for a schema against its copy; the round trip is covered by the tie and the oracle). *)
+Theorem C03_hcl_partial :
+  forall name xs, schema_wf xs -> Forall diffable xs ->
+  exists ys, hcl_roundtrip xs = ROk ys /\
+    SchemaDiff sqlite_driver no_skip (schema_of name ys) (schema_of name xs) = Some [] /\
+    SchemaDiff sqlite_driver no_skip (schema_of name xs) (schema_of name ys) = Some [].
+Proof. exact hcl_roundtrip_diff_empty. Qed.
+Print Assumptions C03_hcl_partial.
+
+Example C03_hcl_nonvacuous : schema_wf w_xs /\ Forall diffable w_xs /\ List.length w_xs = 2%nat.
+Proof. exact (conj w_xs_wf (conj w_xs_diffable eq_refl)). Qed.
+
+(** 4c. C03_hcl at full strength is FALSE: columns the conversion accepts ([col_wf]) whose round trip the
+    differ reports as changed -- boolean DEFAULT TRUE, DEFAULT '''a''' (a quoted quote), DEFAULT +5,
+    DEFAULT 007.  Each reproduced on MarshalHCL / EvalHCLBytes / SchemaDiff (known findings
+    C03-default-bool-case, C03-default-quoted-quote, C03-default-number-form). *)
+Theorem C03_hcl_refuted :
+  exists c, col_wf c /\ sqlite_column_change (mkTable [] false false [] None [] [] []) (norm_col c) c <> Some 0%N.
+Proof.
+  pose proof default_refuted as H. inversion H as [|c l Hc _]. subst. eexists. exact Hc.
+Qed.
+Print Assumptions C03_hcl_refuted.
